@@ -560,3 +560,15 @@ Definition mismatches (cases : list (N * list (list op) * list (list N))) : list
       if nll_eqb (run_hist (init lock) groups) obs then go (S i) rest else i :: go (S i) rest
     end in
   go 0%nat cases.
+
+(* retention on a directory given as (min, max) pairs, every file older than the cut-off:
+   the max TXIDs of the files that remain *)
+Definition retention_obs (files : list (N * N)) (backup : bool) (hwm : N) : list N :=
+  map l_max (retention (map (fun mm => mkLtx (fst mm) (snd mm) 0 0 0 []) files) (fun _ => true) backup hwm).
+Definition mismatches_retention (cases : list (list (N * N) * bool * N * list N)) : list nat :=
+  let fix go (i : nat) (cs : list (list (N * N) * bool * N * list N)) : list nat :=
+    match cs with
+    | [] => []
+    | (fs, b, h, want) :: rest => if nl_eqb (retention_obs fs b h) want then go (S i) rest else i :: go (S i) rest
+    end in
+  go 0%nat cases.
